@@ -22,6 +22,17 @@
 //@ end
 }
 
+// identity coercion &mut PrefixedStorage -> &mut dyn Storage (rule R3) with the type-invariant principle: through
+// `&mut dyn Storage` only `set` / `remove` can change the view; both are PROVED (C07.ps.set_frame / remove_frame) to
+// change the base exactly at prefix+key, keep the prefix, and not to touch the prophecy of the held reference.  TRUSTED.
+#[verifier::external_body]
+pub fn ps_as_dyn_mut<'a, 'b>(x: &'a mut PrefixedStorage<'b>) -> (r: &'a mut dyn Storage)
+    ensures r.view() == old(x).view(), final(x).view() == final(r).view(),
+        final(x).prefix_view() == old(x).prefix_view(),
+        final(x).final_base_view() == old(x).final_base_view(),
+        final(x).base_view() == splice(old(x).base_view(), old(x).prefix_view(), final(r).view()),
+{ x }
+
 //@ impl_open src/prefixed_storage/mod.rs :: Storage for PrefixedStorage
 //@ end
     closed spec fn view(&self) -> St { window(self.storage.view(), self.prefix@) }
@@ -36,12 +47,12 @@
 //@ end
 //@ fn src/prefixed_storage/mod.rs :: Storage for PrefixedStorage :: set
 //@   ensures [C07.ps.set_window] final(self).view() == old(self).view().insert(key@, value@)
-//@   ensures [C07.ps.set_frame] final(self).base_view() == old(self).base_view().insert(old(self).prefix_view() + key@, value@) && final(self).prefix_view() == old(self).prefix_view()
+//@   ensures [C07.ps.set_frame] final(self).base_view() == old(self).base_view().insert(old(self).prefix_view() + key@, value@) && final(self).prefix_view() == old(self).prefix_view() && final(self).final_base_view() == old(self).final_base_view()
 //@   after? "set_with_prefix(" proof { lemma_window_insert(old(self).storage.view(), self.prefix@, key@, value@); }
 //@ end
 //@ fn src/prefixed_storage/mod.rs :: Storage for PrefixedStorage :: remove
 //@   ensures [C07.ps.remove_window] final(self).view() == old(self).view().remove(key@)
-//@   ensures [C07.ps.remove_frame] final(self).base_view() == old(self).base_view().remove(old(self).prefix_view() + key@) && final(self).prefix_view() == old(self).prefix_view()
+//@   ensures [C07.ps.remove_frame] final(self).base_view() == old(self).base_view().remove(old(self).prefix_view() + key@) && final(self).prefix_view() == old(self).prefix_view() && final(self).final_base_view() == old(self).final_base_view()
 //@   after? "remove_with_prefix(" proof { lemma_window_remove(old(self).storage.view(), self.prefix@, key@); }
 //@ end
 }
@@ -61,6 +72,13 @@
 //@   ensures [C07.ro.multi_window] r.view() == window(storage.view(), lp_nested(slices_view(namespaces@)))
 //@ end
 }
+
+// identity coercion &ReadonlyPrefixedStorage -> &dyn Storage through a function (Verus' built-in shared unsizing
+// does not record the dynamic type, which blocks quantifier instantiation over structs holding the reference)  TRUSTED (identity)
+#[verifier::external_body]
+pub fn ro_as_dyn<'a, 'b>(x: &'a ReadonlyPrefixedStorage<'b>) -> (r: &'a dyn Storage)
+    ensures r.view() == x.view()
+{ x }
 
 //@ impl_open src/prefixed_storage/mod.rs :: Storage for ReadonlyPrefixedStorage
 //@ end
